@@ -529,6 +529,9 @@ func runC03(ctx *Ctx) error {
 	if err := c03CombineCorr(ctx, ctx.N(2000, 30000)); err != nil {
 		return err
 	}
+	if err := c03IntegerPaths(ctx); err != nil {
+		return err
+	}
 	kit, err := NewRunKit(ctx.Work)
 	if err != nil {
 		return err
@@ -751,3 +754,60 @@ func isASCII(s string) bool {
 func init() { register("c03", runC03) }
 
 var _ = sort.Strings
+
+// c03IntegerPaths: path variables of type integer take negative values as well: the request is routed to the operation
+// and the value arrives in the argument named after the variable (a router pattern narrowed to digits would lose it).
+func c03IntegerPaths(ctx *Ctx) error {
+	kit, err := NewRunKit(ctx.Work + "/c03int")
+	if err != nil {
+		return err
+	}
+	defer kit.Close()
+	ip := func(n string) J { return J{"name": n, "in": "path", "required": true, "schema": J{"type": "integer"}} }
+	ok := J{"204": J{"description": "d"}}
+	doc := J{"openapi": "3.0.3", "info": J{"title": "t", "version": "1"}, "paths": J{
+		"/accounts/{id}/balance": J{"get": J{"operationId": "getBalance", "parameters": []interface{}{ip("id")}, "responses": ok}},
+		"/grid/{x}/{y}":          J{"get": J{"operationId": "getCell", "parameters": []interface{}{ip("y"), ip("x")}, "responses": ok}},
+	}}
+	var pkgs []*RunPkg
+	for _, fw := range allFrameworks {
+		var cfg codegen.Configuration
+		cfg.Generate.Models = true
+		pkgs = append(pkgs, kit.Add(&RunPkg{Name: "c03int_" + fw, FW: fw, Doc: doc, Cfg: cfg}))
+	}
+	kit.Prepare()
+	cases := []struct {
+		url  string
+		op   string
+		args J
+	}{{"http://h/accounts/-7/balance", "GetBalance", J{"id": -7}}, {"http://h/accounts/0/balance", "GetBalance", J{"id": 0}}, {"http://h/accounts/12/balance", "GetBalance", J{"id": 12}},
+		{"http://h/grid/-3/4", "GetCell", J{"x": -3, "y": 4}}, {"http://h/grid/5/-6", "GetCell", J{"x": 5, "y": -6}}}
+	for i, p := range pkgs {
+		fw := allFrameworks[i]
+		if p.GenErr != nil || p.BuildErr != "" {
+			ctx.Res.Violate("integer-path:not-built:"+fw, fmt.Sprintf("operations with integer path variables are not generated or do not build: %v %s", p.GenErr, firstLines(p.BuildErr, 3)), J{"doc": doc, "fw": fw})
+			continue
+		}
+		for _, c := range cases {
+			resp, err := p.Call(J{"do": "serve", "req": J{"method": "GET", "url": c.url}, "opt": J{"stop": -1, "sstop": -1}})
+			if err != nil {
+				return err
+			}
+			ctx.Res.Eval(J{"fw": fw, "integer-path": c.url}, true)
+			ctx.Res.Count("integer-path")
+			gotOp, got := "", J{}
+			if call, one := firstCall(resp); one {
+				gotOp, _ = call["op"].(string)
+				if args, _ := call["args"].(map[string]interface{}); args != nil {
+					for k, v := range args {
+						got[k] = v
+					}
+				}
+			}
+			if gotOp != c.op || Canon(jsonRoundTrip(got)) != Canon(jsonRoundTrip(c.args)) {
+				ctx.Res.Violate("integer-path:"+fw, fmt.Sprintf("%s GET %s: handler %q args %s; the document prescribes %q args %s (status %v)", fw, c.url, gotOp, Canon(got), c.op, Canon(c.args), resp["status"]), J{"doc": doc, "fw": fw, "url": c.url, "resp": resp})
+			}
+		}
+	}
+	return nil
+}
